@@ -217,9 +217,20 @@ def verus_lane(pid, tier, cov, ledger, findings, assumptions):
     new_fns = sorted(set(f.name for f in fns if f.mode == 'exec' and f.has_body and not f.external and f.id not in ledger_fns
                          and not (f.trait_impl and f.trait_impl.startswith('decl:'))))
     wlines = w.text.split('\n')
+    subst_mods = set(r[:-3].replace('/', '::') for r in getattr(w, 'substituted', []))
+    if subst_mods:
+        cov['modules_replaced_by_baseline_text'] = sorted(subst_mods)
     for (ob_id, fid, kind, clauses, support) in obs:
         f = byid[fid]
         fn_under.add(fid)
+        if f.module in subst_mods:
+            if support:
+                continue        # untagged support lemma of a replaced module: irrelevant for this property
+            n_ob += len(clauses)
+            msg = 'module %s: its current text does not compile together with its contracts; it was replaced by its baseline text so that the other modules could be verified -- its own obligations (%s, ...) are undecided' % (f.module, ob_id)
+            if not any(u.startswith('module %s:' % f.module) for u in out['undecided']):
+                out['undecided'].append(msg)
+            continue
         n_ob += len(clauses)
         bad = failed.get(ob_id)
         und = fn_undecided.get(fid)
